@@ -45,6 +45,10 @@ def ref_pep440(s):
     return str(pv.Version(s))
 
 
+# a glob for each generated file name that matches that file only
+GLOBS = {"src/mod.py": "src/*.py", "README.md": "README.*", "docs/conf.py": "docs/c*.py", "notes.txt": "*.txt", "setup.py": "setup.*"}
+
+
 class Scenario:
     def __init__(self, seed):
         r = random.Random(seed)
@@ -105,6 +109,8 @@ class Scenario:
             self.occ[fn] = occ
             self.file_patterns[fn] = pats
             self.kinds_ok = kinds is not None
+        # config spelling of the file entries: plain path, a glob, or two entries for one file
+        self.split_entries = {fn: r.choice(["explicit_first", "glob_first"]) for fn in sorted(self.files) if r.random() < 0.3}
         self.fault = r.choice([None, None, None, "nomatch", "missing", "nomatch_one"])
         self.fault_file = r.choice(sorted(self.files)) if self.fault else None
         if self.fault == "nomatch_one":
@@ -150,6 +156,7 @@ class Scenario:
     def write(self, d):
         os.makedirs(os.path.join(d, ".git"))
         fp_lines = []
+        late_lines = []
         for fn, lines in self.files.items():
             path = os.path.join(d, fn)
             os.makedirs(os.path.dirname(path), exist_ok=True)
@@ -159,8 +166,20 @@ class Scenario:
             if not (self.fault == "missing" and fn == self.fault_file):
                 with open(path, "w", encoding="utf-8", newline="") as fh:
                     fh.write(content)
-            pats = ", ".join("'" + p + "'" for p in self.file_patterns[fn])
+            plist = list(self.file_patterns[fn])
+            if fn in self.split_entries and len(plist) == 2:
+                # the same file reached through two entries (explicit path and a glob that matches only it), the
+                # second one after the entries of the other files: "globbed and repeated file entries"
+                first, second = (fn, GLOBS[fn]) if self.split_entries[fn] == "explicit_first" else (GLOBS[fn], fn)
+                fp_lines.append(f'"{first}" = [\'{plist[0]}\']')
+                late_lines.append(f'"{second}" = [\'{plist[1]}\']')
+                continue
+            if fn in self.split_entries and len(plist) == 1:
+                fp_lines.append(f'"{GLOBS[fn]}" = [\'{plist[0]}\']')
+                continue
+            pats = ", ".join("'" + p + "'" for p in plist)
             fp_lines.append(f'"{fn}" = [{pats}]')
+        fp_lines += late_lines
         hooks = ""
         for name, mode in (("pre_commit_hook", self.pre_hook), ("post_commit_hook", self.post_hook)):
             if mode:
@@ -331,6 +350,14 @@ def check_scenario(seed, keep_dir=False):
                 res["C06" if not sc.dry else "C13"] = f"exit {rc} but VCS commands ran: {mutating[:2]}"
         # ---- C03 / C04: successful real run rewrote exactly the occurrences
         if rc == 0 and not sc.dry and new is not None and sc.kinds_ok:
+            written = new
+            if sc.set_version == "pep_equal" and canonical_spelling(new) != new:
+                # --set-version with a non-canonical spelling the pattern's regex accepts (leading zeros): bumpver
+                # announces/tags the given text but writes its own rendering. Known finding (C03, C08); everything
+                # else is judged against the text that is actually written.
+                written = canonical_spelling(new)
+                res["C03"] = f"[set_version_noncanonical] announced {new!r} but occurrences and config are written as {written!r}"
+            announced, new = new, written
             for fn, lines in sc.files.items():
                 exp = sc.render(lines, new)
                 want = (sc.sep.join(exp) + (sc.sep if sc.final_newline else "")).encode("utf-8")
@@ -341,6 +368,7 @@ def check_scenario(seed, keep_dir=False):
             cfgtxt = after.get("bumpver.toml", b"").decode("utf-8")
             if f'current_version = "{new}"' not in cfgtxt:
                 res["C03"] = "config current_version not updated"
+            new = announced
         # ---- C10 / C12: order and arguments of VCS steps on a real run
         if not sc.dry:
             seq = [("hook:" + c[0][5:]) if c[0].startswith("HOOK:") else c[0] for c in calls if c and (c[0] in MUTATING and not (c[0] == "tag" and "--list" in c) or c[0].startswith("HOOK:"))]
@@ -401,6 +429,11 @@ def check_scenario(seed, keep_dir=False):
             shutil.rmtree(d, ignore_errors=True)
 
 
+def canonical_spelling(v):
+    """The spelling bumpver itself renders for the generated families: numeric components without leading zeros."""
+    return re.sub(r"(?<![0-9])0+(?=[0-9])", "", v)
+
+
 def script_tags(sc):
     if (sc.cli_scope or sc.scope) == "branch":
         return sc.tags[: max(0, len(sc.tags) - 2)] if sc.tags else []
@@ -421,6 +454,15 @@ def run_shadow(prop, tier, seed, n_quick=160, n_thorough=4000):
         results = pool.map(check_scenario, seeds, chunksize=4)
     bad = [(s, r) for s, r in zip(seeds, results) if prop in r]
     errs = [(s, r) for s, r in zip(seeds, results) if "_error" in r]
+    # listed known findings are identified by their witness class ("[class] ..." in the failure text)
+    from checks import _known
+
+    known = {k["witness_class"]: k for k in _known.load(prop)}
+    cls_of = lambda r: r[prop][1 : r[prop].index("]")] if r[prop].startswith("[") else "other"
+    known_hits = sorted({cls_of(r) for s, r in bad if cls_of(r) in known})
+    new_bad = [(s, r) for s, r in bad if cls_of(r) not in known]
+    kf = ",".join(known[c]["id"] for c in known_hits) if bad and not new_bad else None
+    bad = new_bad or bad
     out = dict(
         name=f"{prop}.shadow.generated_projects_through_the_real_cli_with_fake_git",
         kind="B",
@@ -434,4 +476,6 @@ def run_shadow(prop, tier, seed, n_quick=160, n_thorough=4000):
         detail=errs[0][1]["_error"] if errs and not bad else None,
         python_replay=(dict(module="shadows.project", function="replay_seed", args=[bad[0][0], prop]) if bad else None),
     )
+    if kf:
+        out["known_finding"] = kf
     return out
